@@ -154,7 +154,8 @@ def st_spec(draw):
         "skip_checks": draw(st.sampled_from([False, False, True])),
         "prefix": draw(st.sampled_from(["src_", "src_", "x-"])),
         "compression": draw(st.sampled_from(["default", "default", "none", "gzip"])),
-        "path": draw(st.sampled_from(["path", "str", "nosuffix", "override"])),
+        "path": draw(st.sampled_from(["path", "str", "nosuffix", "override",
+                                      "nosuffix_override"])),
     }
     spec["tsv"] = draw(st.sampled_from([True, False]))
     spec["tsv_filtered"] = draw(st.sampled_from([True, True, False]))
@@ -872,7 +873,7 @@ def _run(spec, rec, d, S):
         expect_reject = True
     # ---- export
     name = {"path": "out.rtdc", "str": "out.rtdc", "nosuffix": "out",
-            "override": "out.rtdc"}[flags["path"]]
+            "override": "out.rtdc", "nosuffix_override": "out"}[flags["path"]]
     target = d / name
     out = d / "out.rtdc"
     kw = {}
@@ -881,6 +882,14 @@ def _run(spec, rec, d, S):
     if flags["path"] == "override":
         out.write_bytes(b"junk")
         kw["override"] = True
+    if flags["path"] == "nosuffix_override":
+        # an earlier, valid export sits at the path the suffix completion leads to
+        with dclab.RTDCWriter(out, mode="reset") as hw0:
+            hw0.store_metadata(base_meta())
+            hw0.store_feature("deform", np.linspace(0.01, 0.02, 5))
+            hw0.store_feature("area_um", np.linspace(50, 60, 5))
+        kw["override"] = True
+        rec.cls("path:nosuffix+override-existing")
     if flags["compression"] == "none":
         kw["compression_kwargs"] = {"compression": None}
     elif flags["compression"] == "gzip":
